@@ -11,6 +11,12 @@ arbitrary / mutated bytes (malformed stream); (c) the same attribute sets sent t
 (client SETSTAT -> server `_from_msg`; server STAT reply `_pack` -> client `_from_msg`).
 Oracle (model-independent): decoded fields == fields set, absent fields are None, extended dict equal
 (items in order), `_flags` == the SFTP v3 flag word of the presence set, remainder untouched.
+Independence of instances (sequences in ONE process; the Lean model is pure, so any cross-talk is a disagreement):
+after a set with extended attributes was decoded / built, a set decoded without FLAG_EXTENDED and a brand-new
+SFTPAttributes() must have an empty attr and pack to flags 0; checked up front (two-step probe, both routes, also
+piped through the model) and again on every case (a new object stays empty, a built object holds exactly its own
+pairs, a decoded object has no foreign keys).  Reporting is bounded (Budget): at most MAX_FAILS failures and
+MAX_DISAGREE disagreements are recorded with clipped details, and the run stops early once objects alias.
 """
 import struct
 
@@ -116,6 +122,92 @@ class Case:
         keys = [asb(k) for k, _ in self.ext]
         return (self.in_range() and (self.uid is None) == (self.gid is None)
                 and (self.atime is None) == (self.mtime is None) and len(set(keys)) == len(keys))
+
+
+MAX_FAILS = 40          # after this many recorded failures the remaining cases are skipped (verdict is settled)
+MAX_DISAGREE = 30
+MAX_WIRE = 1 << 16      # no generated attribute set encodes to more than a few KiB
+
+
+def clip(x, n=600):
+    x = x if isinstance(x, str) else repr(x)
+    return x if len(x) <= n else x[:n] + "...[%d chars]" % len(x)
+
+
+class Budget:
+    """bounded reporting: the harness must stay small and finish even when every case fails"""
+
+    def __init__(self, ctx):
+        self.ctx, self.fails, self.disagreements, self.abort = ctx, 0, 0, False
+
+    def fail(self, sig, case, detail):
+        self.fails += 1
+        if self.fails <= MAX_FAILS:
+            self.ctx.fail(sig, case, clip(detail))
+        else:
+            self.ctx.dist("failures-not-recorded")
+            self.abort = True
+
+    def disagree(self, what, case, model, impl):
+        self.disagreements += 1
+        if self.disagreements <= MAX_DISAGREE:
+            self.ctx.disagree(what, case, clip(model, 400), clip(impl, 400))
+        else:
+            self.ctx.dist("disagreements-not-recorded")
+
+
+def wire_str(b):
+    return struct.pack(">I", len(b)) + b
+
+
+def independence_probe(ctx, budget, A, Message):
+    """Instances must not share state.  Two-step sequences in this one process: handle an attribute set WITH extended
+    attributes (decoded from the wire, then built by user code), then look at a decoded set WITHOUT them and at a
+    brand-new object.  Returns the list of (request line, impl reply) for the model (which is pure: any cross-talk is
+    a disagreement) and True iff the instances are independent."""
+    w_ext = struct.pack(">II", 0x80000000, 1) + wire_str(b"pv-probe-key") + wire_str(b"pv-probe-value")
+    w_plain = struct.pack(">II", 4, 0o600)
+    steps = []
+    ok = True
+
+    def decode(w):
+        msg = Message(w)
+        o = A._from_msg(msg)
+        steps.append(("unpack " + hx(w), canon_decoded(o, len(msg.get_so_far()), msg.get_remainder())))
+        return o
+
+    def look(route, first):
+        nonlocal ok
+        o = decode(w_plain)
+        fresh = A()
+        m = Message()
+        fresh._pack(m)
+        steps.append(("pack - - - - - - -", hx(m.asbytes())))
+        problems = []
+        if len(o.attr) or o._flags != 4:
+            problems.append("a set decoded WITHOUT extended attributes has attr=%s flags=%#x" % (
+                clip(ext_tok(list(o.attr.items())), 200), o._flags))
+        if len(fresh.attr) or m.asbytes() != b"\0\0\0\0":
+            problems.append("a brand-new SFTPAttributes() has attr=%s and packs to %s" % (
+                clip(ext_tok(list(fresh.attr.items())), 200), clip(m.asbytes().hex(), 80)))
+        if A().attr is A().attr:
+            problems.append("two new objects share one attr dict (identity)")
+        if problems:
+            ok = False
+            budget.fail("instances-share-extended",
+                        {"step1": first, "step2": "decode %s (mode 0600 only); then SFTPAttributes()" % w_plain.hex(),
+                         "route": route}, "; ".join(problems))
+
+    decode(w_ext)
+    look("decode", "decode %s (one extended pair)" % w_ext.hex())
+    if ok:
+        a = A()
+        a.attr[b"pv-built-key"] = b"pv-built-value"
+        m = Message()
+        a._pack(m)
+        steps.append(("pack - - - - - - %s" % ext_tok([(b"pv-built-key", b"pv-built-value")]), hx(m.asbytes())))
+        look("build", "a = SFTPAttributes(); a.attr[b'pv-built-key'] = b'pv-built-value'; a._pack(msg)")
+    return steps, ok
 
 
 class Runaway(Exception):
@@ -231,13 +323,47 @@ def run(ctx):
             ctx.fail("flag-constant:" + k, {"constant": k, "value": v},
                      "SFTP v3 (filexfer-02 section 5) assigns %#x" % SPEC_FLAGS[k])
 
+    budget = Budget(ctx)
+    # ---- independence of instances (sequences in one process; the model is pure)
+    steps, independent = independence_probe(ctx, budget, A, Message)
+    mseq = ctx.driver("C33", [r for r, _ in steps])
+    for k, (req, impl) in enumerate(steps):
+        ctx.case(("sequence", k, req), True)
+        ctx.dist("sequence-step")
+        if mseq is not None and mseq[k] != impl:
+            budget.disagree("sequence step %d (pure model vs one process)" % k,
+                            {"sequence": [clip(r, 200) for r, _ in steps[:k + 1]]}, mseq[k], impl)
+    if not independent:
+        ctx.dist("aborted:instances-share-state")
+        return  # every later case would only re-report the same cross-talk (and grow without bound)
+
     cases = gen_cases(rng, n_random)
     model_pack = ctx.driver("C33", [c.pack_req() for c in cases])
     unpack_reqs, unpack_meta = [], []
     combos_seen = set()
+    key_owner = {}  # wire key -> index of the last case that carried it (to name the first step of a cross-talk)
+    last_ext = None
     for i, c in enumerate(cases):
+        if budget.abort:
+            ctx.dist("skipped:after-abort")
+            continue
         ctx.dist("tag:" + c.tag)
+        fresh = A()
         a = c.build(A)
+        built = list(dict(c.ext).items())
+        if len(fresh.attr) or list(a.attr.items()) != built:
+            first = cases[last_ext].describe() if last_ext is not None else \
+                "x = SFTPAttributes() created just before step 2 (x.attr is what 'new object' shows)"
+            budget.fail("instances-share-extended", {"step1": first, "step2": c.describe(), "route": "build"},
+                        "new object attr=%s; built object attr=%s, expected %s" % (
+                            clip(ext_tok(list(fresh.attr.items())), 150), clip(ext_tok(list(a.attr.items())), 150),
+                            clip(ext_tok(built), 150)))
+            budget.abort = True
+            continue
+        for k_, _v in c.ext:
+            key_owner[asb(k_)] = i
+        if c.ext:
+            last_ext = i
         m = Message()
         try:
             a._pack(m)
@@ -248,15 +374,19 @@ def run(ctx):
         except TypeError:
             data, impl = None, "err:type"
         pres = c.presence()
-        ctx.case((pres, impl), any(pres))
+        ctx.case((pres, impl[:200]), any(pres))
         combos_seen.add(pres)
+        if data is not None and len(data) > MAX_WIRE:
+            budget.fail("pack-output-runaway", c.describe(), "%d bytes on the wire" % len(data))
+            budget.abort = True
+            continue
         if i % 700 == 0:
             ctx.sample({"case": c.describe(), "wire": impl})
         if model_pack is not None and model_pack[i] != impl:
-            ctx.disagree("pack", c.describe(), model_pack[i], impl)
+            budget.disagree("pack", c.describe(), model_pack[i], impl)
         if data is None:
             if c.in_range():  # _pack must accept every in-range attribute set
-                ctx.fail("pack-raises", c.describe(), impl)
+                budget.fail("pack-raises", c.describe(), impl)
             continue
         # ---- oracle on the real code (only for what the statement quantifies over)
         tail = rng.randbytes(rng.choice([0, 0, 1, 4, 9]))
@@ -264,10 +394,10 @@ def run(ctx):
         try:
             b = A._from_msg(msg)
         except Runaway:
-            ctx.fail("roundtrip:runaway-extended-count", c.describe(), "decoder misaligned: > 20000 strings requested")
+            budget.fail("roundtrip:runaway-extended-count", c.describe(), "decoder misaligned: > 20000 strings requested")
             continue
         except Exception as e:  # decoding what _pack wrote must not raise
-            ctx.fail("unpack-raises:" + type(e).__name__, c.describe(), repr(e))
+            budget.fail("unpack-raises:" + type(e).__name__, c.describe(), repr(e))
             continue
         rem = msg.get_remainder()
         consumed = len(msg.get_so_far())
@@ -276,10 +406,10 @@ def run(ctx):
             want_flags = sum(f for f, on in zip((SPEC_FLAGS["size"], SPEC_FLAGS["uidgid"], SPEC_FLAGS["perm"],
                                                  SPEC_FLAGS["amtime"], SPEC_FLAGS["ext"]), pres) if on)
             if a._flags != want_flags or data[:4] != struct.pack(">I", want_flags):
-                ctx.fail("flags-not-presence-set", c.describe(),
+                budget.fail("flags-not-presence-set", c.describe(),
                          "_flags=%#x wire=%s expected %#x" % (a._flags, data[:4].hex(), want_flags))
             if b._flags != want_flags:
-                ctx.fail("decoded-flags", c.describe(), "decoded _flags=%#x expected %#x" % (b._flags, want_flags))
+                budget.fail("decoded-flags", c.describe(), "decoded _flags=%#x expected %#x" % (b._flags, want_flags))
             want = [None if v is None else int(v) for v in c.fields()]
             if not pres[1]:  # a lone uid or gid is not transmitted (normalize)
                 want[1] = want[2] = None
@@ -289,23 +419,33 @@ def run(ctx):
             names = ["size", "uid", "gid", "mode", "atime", "mtime"]
             for nm, w, g in zip(names, want, got):
                 if w != g or (g is not None and type(g) is not int):
-                    ctx.fail("roundtrip:" + nm, c.describe(), "sent %r decoded %r" % (w, g))
+                    budget.fail("roundtrip:" + nm, c.describe(), "sent %r decoded %r" % (w, g))
                     break
             want_ext = [(asb(k), asb(v)) for k, v in c.ext]
             got_ext = list(b.attr.items())
             if want_ext != got_ext:
-                ctx.fail("roundtrip:extended", c.describe(),
-                         "sent %s decoded %s" % (ext_tok(want_ext), ext_tok(got_ext)))
+                sent_keys = {k_ for k_, _ in want_ext}
+                foreign = [k_ for k_, _ in got_ext if k_ not in sent_keys and k_ not in {v_ for _, v_ in want_ext}]
+                if foreign:  # keys this set never carried: they come from another object
+                    j = key_owner.get(foreign[0])
+                    budget.fail("instances-share-extended",
+                                {"step1": cases[j].describe() if j is not None and j != i else None,
+                                 "step2": c.describe(), "route": "decode"},
+                                "decoded attr has foreign keys %s" % clip(ext_tok([(k_, b"") for k_ in foreign[:5]]), 200))
+                    budget.abort = True
+                else:
+                    budget.fail("roundtrip:extended", c.describe(),
+                                "sent %s decoded %s" % (ext_tok(want_ext), ext_tok(got_ext)))
             if rem != tail or consumed != len(data):
-                ctx.fail("roundtrip:remainder", c.describe(), "consumed %d of %d" % (consumed, len(data)))
+                budget.fail("roundtrip:remainder", c.describe(), "consumed %d of %d" % (consumed, len(data)))
         unpack_reqs.append("unpack " + hx(data + tail))
         unpack_meta.append((c.describe(), canon_decoded(b, consumed, rem)))
-    if len(combos_seen) != 32:
+    if len(combos_seen) != 32 and not budget.abort:
         raise RuntimeError("generator did not cover all presence combinations")
     ctx.extra["presence_combinations_covered"] = len(combos_seen)
 
     # ---- malformed stream: arbitrary and mutated bytes
-    for _ in range(n_bad):
+    for _ in range(0 if budget.abort else n_bad):
         r = rng.random()
         if r < 0.35:
             data = rng.randbytes(rng.randrange(0, 48))
@@ -342,7 +482,7 @@ def run(ctx):
             ctx.dist("skipped:runaway-count")  # only reachable when the reader is misaligned w.r.t. the probe above
             continue
         except Exception as e:
-            ctx.fail("unpack-raises:" + type(e).__name__, {"data": data.hex()}, repr(e))
+            budget.fail("unpack-raises:" + type(e).__name__, {"data": data.hex()}, repr(e))
             continue
         ctx.dist("malformed")
         unpack_reqs.append("unpack " + hx(data))
@@ -351,8 +491,10 @@ def run(ctx):
     model_unpack = ctx.driver("C33", unpack_reqs)
     for i, (desc, impl) in enumerate(unpack_meta):
         ctx.case(("unpack", unpack_reqs[i]), True)
+        if budget.disagreements > MAX_DISAGREE:
+            break
         if model_unpack is not None and model_unpack[i] != impl:
-            ctx.disagree("unpack", {"input": desc, "wire": unpack_reqs[i][7:]}, model_unpack[i], impl)
+            budget.disagree("unpack", {"input": desc, "wire": unpack_reqs[i][7:]}, model_unpack[i], impl)
 
     # ---- glue: the same objects through a real SFTP session (client request -> server, server reply -> client)
     from pv import lib_sftploop as lib_sftp
@@ -373,12 +515,12 @@ def run(ctx):
         want = ([None if v is None else int(v) for v in c.fields()], [(asb(k), asb(v)) for k, v in c.ext])
         for direction, got in (("client->server", to_server), ("server->client", to_client)):
             if isinstance(got, str):
-                ctx.fail("session:" + got, c.describe(), direction)
+                budget.fail("session:" + got, c.describe(), direction)
                 continue
             g = ([got.st_size, got.st_uid, got.st_gid, got.st_mode, got.st_atime, got.st_mtime],
                  list(got.attr.items()))
             if g != want:
-                ctx.fail("roundtrip:extended" if g[0] == want[0] else "roundtrip:session", c.describe(),
+                budget.fail("roundtrip:extended" if g[0] == want[0] else "roundtrip:session", c.describe(),
                          "%s: sent %r received %r" % (direction, want, g))
 
 
@@ -392,7 +534,8 @@ META = {
               "(flags_exact, decided over all 2^5 combinations with the constants regenerated from the source); "
               "_pack never raises on such input (pack_total). Tied to sftp_attr.py by generated constants and "
               "byte-exact differential runs of _pack/_from_msg (valid, out-of-range, malformed streams) and "
-              "through a real client/server SFTP session on every check."),
+              "through a real client/server SFTP session on every check; sequences of pack/unpack in one process are "
+              "compared with the (pure) model and instances are checked for independence (no shared attr dict)."),
     "note": ("Trusted: Lean kernel + 3 standard axioms; struct.pack/unpack (modelled as big-endian digits), CPython "
              "dict order and RHS-before-target evaluation; the harness. Half-present pairs (uid without gid) cannot "
              "be expressed on the wire: _pack transmits normalize(a) (theorems flags_normalize, pack_normalize; "
@@ -411,6 +554,22 @@ def replay(data):
     from pv.core import unhx
 
     d = data["case"]
+    if data.get("signature") == "instances-share-extended" or "step2" in d:
+        class _Ctx:  # the probe only needs fail(); this process is fresh, so the two-step sequence starts clean
+            fails = []
+
+            def fail(self, sig, case, detail):
+                self.fails.append((sig, case, detail))
+
+            def dist(self, *a):
+                pass
+
+        c_ = _Ctx()
+        _steps, ok = independence_probe(c_, Budget(c_), A, Message)
+        for f in c_.fails:
+            print("%s\n  %r\n  %s" % f)
+        print("-> %s" % ("holds (instances are independent)" if ok else "FAILS"))
+        return 0 if ok else 1
     if "ext" not in d:
         print("replay covers attribute-set cases only; re-run ./check C33 with VERIF_SEED=%s" % data.get("seed"))
         return 0
